@@ -23,9 +23,12 @@ harness.  Vectors are `DVec α = List α`, matrices `DMat α = List (List α)` (
   `set_refpoint` is modelled statement by statement (five assignments, the first two can raise
   `AttributeError` when no `forward` happened yet, leaving a partial update behind).
 
-  `aliasT = true` is the code as it stands: `self._ref_t = self.systime` stores **the clock buffer
+  `aliasT = true` is the code before fix D32: `self._ref_t = self.systime` stores **the clock buffer
   itself**, so the reference time silently follows every later `forward`/`reset`/assignment while
   `_ref_f/_ref_g` stay frozen.  `aliasT = false` is the documented behaviour (a snapshot).
+  `aliasX = true` is the code as it stands: `_ref_state`, `_ref_input` are the *caller's tensors* (no copy),
+  so an in-place update of those tensors by the caller (`poke`) moves the reference point while `_ref_f/_ref_g`
+  stay frozen; `aliasX = false` is the documented snapshot.
 -/
 namespace PP.Dyn
 variable {α : Type} [Scalar α]
@@ -349,14 +352,22 @@ structure NState (α : Type) where
   reft : Option (RefT α)               -- `_ref_t`
   reff : Option (DVec α)               -- `_ref_f`
   refg : Option (DVec α)               -- `_ref_g`
+  refxLast : Bool := false             -- `_ref_state` is the very tensor object `self.state` (set_refpoint(state=None))
+  refuLast : Bool := false             -- `_ref_input` is the very tensor object `self.input`
 
-def NState.init (c : Int) : NState α := ⟨c, none, none, none, none, none, none⟩
+def NState.init (c : Int) : NState α := ⟨c, none, none, none, none, none, none, false, false⟩
+
+/-- a tensor of the caller that the system has seen and that the caller now updates in place
+(`add_`, `copy_`, item assignment): the one passed to the last `forward`, or the one the reference point was set with -/
+inductive PokeTgt | lastX | lastU | refX | refU
+deriving Repr, Inhabited, DecidableEq
 
 inductive NEv (α : Type)
   | call (x u : DVec α)
   | refpoint (x u : Option (DVec α)) (t : TRef α)
   | reset (t : TArg)
   | assign (t : TArg)
+  | poke (tgt : PokeTgt) (v : DVec α)   -- the caller overwrites that tensor's content with `v`
 
 inductive NOut (α : Type)
   | outputs (f g : DVec α)
@@ -391,7 +402,7 @@ def setRefpoint (aliasT : Bool) (fs gs : List Fn) (S : NState α)
   match orLast x? (S.last.map Prod.fst) with
   | none => (S, .raised)
   | some x =>
-    let S1 := { S with refx := some x }
+    let S1 := { S with refx := some x, refxLast := x?.isNone }
     -- self._ref_input = self.input if input is None else atleast_1d(input)
     match orLast u? (S.last.map Prod.snd) with
     | none => (S1, .raised)
@@ -400,19 +411,39 @@ def setRefpoint (aliasT : Bool) (fs gs : List Fn) (S : NState α)
       let rt : RefT α := refTOf aliasT S.clock t?
       -- self._ref_f = self.state_transition(...); self._ref_g = self.observation(...)
       let env := mkEnv x u (rt.value S.clock)
-      ({ S1 with refu := some u, reft := some rt,
+      ({ S1 with refu := some u, refuLast := u?.isNone, reft := some rt,
                  reff := some (evalAll fs env), refg := some (evalAll gs env) }, .done)
 
-def stepN (aliasT : Bool) (fs gs : List Fn) (S : NState α) : NEv α → NState α × NOut α
+/-- overwrite the value inside an `Option` that is set -/
+def setSome {β : Type} (o : Option β) (v : β) : Option β := o.map fun _ => v
+
+/-- the caller updates one of its own tensors in place. `self.state` / `self.input` are the caller's tensors, so the
+"most recent state" follows (either semantics). `aliasX = true` is the code as it stands: `_ref_state` / `_ref_input` are
+the caller's tensors as well (no copy), so the reference point follows too while `_ref_f`, `_ref_g` stay frozen;
+`aliasX = false` is the documented snapshot. -/
+def pokeN (aliasX : Bool) (S : NState α) (tgt : PokeTgt) (v : DVec α) : NState α :=
+  match tgt with
+  | .lastX => { S with last := S.last.map (fun p => (v, p.2)),
+                       refx := if aliasX && S.refxLast then setSome S.refx v else S.refx }
+  | .lastU => { S with last := S.last.map (fun p => (p.1, v)),
+                       refu := if aliasX && S.refuLast then setSome S.refu v else S.refu }
+  | .refX => { S with refx := if aliasX then setSome S.refx v else S.refx,
+                      last := if S.refxLast then S.last.map (fun p => (v, p.2)) else S.last }
+  | .refU => { S with refu := if aliasX then setSome S.refu v else S.refu,
+                      last := if S.refuLast then S.last.map (fun p => (p.1, v)) else S.last }
+
+def stepN (aliasT aliasX : Bool) (fs gs : List Fn) (S : NState α) : NEv α → NState α × NOut α
   | .call x u =>
     let env := mkEnv x u (ofInt S.clock)
-    ({ S with clock := S.clock + 1, last := some (x, u) }, .outputs (evalAll fs env) (evalAll gs env))
+    ({ S with clock := S.clock + 1, last := some (x, u), refxLast := false, refuLast := false },
+     .outputs (evalAll fs env) (evalAll gs env))
   | .refpoint x? u? t? => setRefpoint aliasT fs gs S x? u? t?
   | .reset t => ({ S with clock := t.trunc }, .done)
   | .assign t => ({ S with clock := t.trunc }, .done)
+  | .poke tgt v => (pokeN aliasX S tgt v, .done)
 
-def runN (aliasT : Bool) (fs gs : List Fn) (S : NState α) (evs : List (NEv α)) : NState α :=
-  evs.foldl (fun S e => (stepN aliasT fs gs S e).1) S
+def runN (aliasT aliasX : Bool) (fs gs : List Fn) (S : NState α) (evs : List (NEv α)) : NState α :=
+  evs.foldl (fun S e => (stepN aliasT aliasX fs gs S e).1) S
 
 /-- reading `A, B, C, D, c1, c2` now (`none`: an `AttributeError`, no reference point yet) -/
 def readLin (fs gs : List Fn) (S : NState α) : Option (Lin α) :=
@@ -426,9 +457,14 @@ def NEv.toEv : NEv α → Ev
   | .refpoint _ _ _ => .refpoint none
   | .reset t => .reset t
   | .assign t => .assign t
+  | .poke _ _ => .fwdDirect          -- no effect on the clock
 
 def NEv.isRef : NEv α → Bool
   | .refpoint _ _ _ => true
+  | _ => false
+
+def NEv.isPoke : NEv α → Bool
+  | .poke _ _ => true
   | _ => false
 
 end PP.Dyn
